@@ -114,6 +114,9 @@ reg = {
         "openstate": {"overlay": "units/openstate.ovl", "canaries": ["canary_openstate"],
                       "helpers": ["into_storage_error_or_corrupted", "untracked", "new", "clone", "used_two_phase_commit", "get_system_root",
                                   "is_valid_allocator_state", "get_table"]},
+        # the allocation records written by a durable commit (fragment of flush_data_allocated_pages)
+        "allocrec": {"overlay": "units/allocrec.ovl", "canaries": ["canary_allocrec"],
+                     "helpers": ["lock", "open_system_table", "into_iter", "collect", "next", "take_unpersisted_allocations", "write_allocated_pages_entry"]},
         "types_sep": {"overlay": "units/types_sep.ovl", "canaries": ["canary_types_sep"], "helpers": ["common_prefix_len"]},
         # the page-level checksum walk over an abstract page store
         "merkle": {"overlay": "units/merkle.ovl", "canaries": ["canary_merkle"],
@@ -269,10 +272,11 @@ P["C06"] = {
 P["C07"] = {
     "level": "proof",
     "kani": [K["C07-K1s"], K["C07-K1n"]],
-    "verus": [{"unit": "txcommit", "functions": ["WriteTransaction::commit_inner_helper", "WriteTransaction::abort_inner", "Mutex::lock"]}],
-    "assumptions": ["X1 (txcommit unit): every callee of commit_inner_helper appends its step to a ghost log and leaves the transaction's configuration alone; durable_commit applies the savepoint bookkeeping itself after its commit point; both commit callees leave the freed-page lists empty on success (what the final assertions of the real function check at run time); one-thread Mutex model"],
+    "verus": [{"unit": "txcommit", "functions": ["WriteTransaction::commit_inner_helper", "WriteTransaction::abort_inner", "Mutex::lock"]},
+              {"unit": "allocrec", "functions": ["WriteTransaction::write_allocation_records", "Mutex::lock"]}],
+    "assumptions": ["A1 (allocrec unit): DATA_ALLOCATED_TABLE is the log of (transaction, pages) records written to it (write_allocated_pages_entry appends one; its chunking into page lists is the bounded Kani harness C06-K2), the in-memory records are a sequence yielded in key order (rule R18)", "X1 (txcommit unit): every callee of commit_inner_helper appends its step to a ghost log and leaves the transaction's configuration alone; durable_commit applies the savepoint bookkeeping itself after its commit point; both commit callees leave the freed-page lists empty on success (what the final assertions of the real function check at run time); one-thread Mutex model"],
     "native": [dict(NATIVE["X-pins3"], id="C07-X-pins3"), dict(NATIVE["X-pins4"], id="C07-X-pins4"), dict(NATIVE["X-unp3"], id="C07-X-unp3"), dict(NATIVE["X-spstate"], id="C07-X-spstate")],
-    "explanation": "Kernel: (V) the REAL WriteTransaction::commit_inner_helper: an acknowledged commit has applied the savepoint bookkeeping (deleted savepoints released, restored-over ones invalidated) as its LAST step, after the durable or non-durable commit it depends on; after a savepoint restore the freed-page records of the rolled-back commits are dropped FIRST; a non-durable commit keeps its freed-page records in memory under its own id and adopts nothing, a durable one writes them out. (K) the persistent-savepoint record round trip (id, transaction id, user root) and its byte layout, for every id and every root header. BOUNDED (native): the savepoint bookkeeping of the real TransactionTracker - every registered savepoint holds exactly one pin on its transaction until it is deallocated, invalidation keeps the pins, oldest_savepoint_excluding / list_savepoints_after / any_*_savepoint_exists agree with the set of valid savepoints; the transaction-local SavepointTransactionState: a commit releases the pins of deleted savepoints and invalidates restored-over ones without touching their pins, an abort releases exactly the savepoints created in the transaction, both leave the local state empty.",
+    "explanation": "Kernel: (V) the REAL WriteTransaction::commit_inner_helper: an acknowledged commit has applied the savepoint bookkeeping (deleted savepoints released, restored-over ones invalidated) as its LAST step, after the durable or non-durable commit it depends on; after a savepoint restore the freed-page records of the rolled-back commits are dropped FIRST; a non-durable commit keeps its freed-page records in memory under its own id and adopts nothing, a durable one writes them out; (A) the REAL writing of the allocation records at a durable commit (fragment of flush_data_allocated_pages): the records earlier non-durable commits kept in memory are written out each under its OWN transaction id, in order, followed by this transaction's pages under this transaction's id - nothing else, nothing missing. (K) the persistent-savepoint record round trip (id, transaction id, user root) and its byte layout, for every id and every root header. BOUNDED (native): the savepoint bookkeeping of the real TransactionTracker - every registered savepoint holds exactly one pin on its transaction until it is deallocated, invalidation keeps the pins, oldest_savepoint_excluding / list_savepoints_after / any_*_savepoint_exists agree with the set of valid savepoints; the transaction-local SavepointTransactionState: a commit releases the pins of deleted savepoints and invalidates restored-over ones without touching their pins, an abort releases exactly the savepoints created in the transaction, both leave the local state empty.",
     "not_decided": "restore semantics (restore_savepoint_inner), histories, crash; malformed-record error returns; the tracker and the unpersisted allocation records beyond the stated call-sequence bound",
 }
 P["C09"] = {
